@@ -202,6 +202,12 @@ def plan(tier, seed):
                 cases.append({"fam": "syn", "cls": cls, "B": b, "n": n, "n2": n, "sig": SIGMODES[r % len(SIGMODES)], "flag": "auto",
                               "nmodes": n - 1, "fmt": ["csc", "csr", "coo"][r % 3], "sort": SORTERS[r % 3], "steps": 2,
                               "id": int(rng.integers(0, 2 ** 31))})
+    # ---- positive definite pencils (K, M both SPD) with a shift: the documented `mode` keyword (buckling / Cayley) can be used
+    for r in range(16 if quick else 160):
+        n = int(rng.integers(8, 41 if quick else 121))
+        cases.append({"fam": "syn", "cls": "rsym", "B": "spd", "pd": True, "n": n, "n2": n, "sig": ["below", "inside-low", "midpoint", "inside-deep"][r % 4],
+                      "flag": "auto", "nmodes": int(rng.integers(1, min(kmax, n - 3) + 1)), "fmt": ["csc", "csr"][r % 2],
+                      "sort": SORTERS[r % 3], "steps": 2, "id": int(rng.integers(0, 2 ** 31))})
     # ---- slender FE pencils: relative accuracy of the lowest eigenvalues, in-place matrix updates
     for r in range(48 if quick else 400):
         cases.append({"fam": "slender", "mesh": [[30, 2], [40, 1], [60, 1], [100, 1], [24, 3], [50, 2]][r % 6], "gen": bool(r % 2),
@@ -245,6 +251,8 @@ def _judge_step(ctx, pym, state, mats, info, step):
               nmodes=info.get("nmodes"), sigma=info.get("sigma", 0.0))
     fails, obs = ref.judge(A, B, W, Q, sorter=(state["sort"], keyfn), rec=(rec.calls if rec is not None else None),
                            count=ctx.count, **jk)
+    if state.get("othermode"):
+        fails = [f_ for f_ in fails if f_[0] != "sparse/not-the-eigenvalues-closest-to-the-shift"]
     ctx.count("responses_judged")
     ctx.log(f"step {step}: n={A.shape[0]} B={'-' if B is None else type(B).__name__} sparse={info['sparse']} "
             f"returned {np.shape(W)} {getattr(W, 'dtype', None)}; lambda[:6]={np.asarray(W)[:6]}; sigma={info.get('sigma')}; "
@@ -372,7 +380,16 @@ def _run_sparse(case, ctx, pym, make_pencil, label):
                 kwargs["hermitian"] = True
             if case.get("flag", "auto") == "false":
                 kwargs["hermitian"] = False          # general (eigs) path on a symmetric pencil is legitimate
-            state = {"inst": _build(pym, 1 if B is None else 2, kwargs, srt), "sort": srt, "kwargs": kwargs}
+            othermode = False
+            if real_sym and case.get("fam") == "syn" and case.get("B") == "spd" and sig_arg not in (None, 0.0) and \
+                    case.get("flag", "auto") != "false" and np.all(np.real(lam) > 0) and rng.random() < 0.5:
+                # the documented `mode` keyword of the symmetric shift-invert path (ARPACK's buckling and Cayley transforms, A positive
+                # definite): eigenpairs, normalisation and order are judged as always; *which* k eigenvalues these transforms favour is
+                # ARPACK's definition (largest |lam/(lam-sigma)| resp. |(lam+sigma)/(lam-sigma)|), not "closest to the shift"
+                kwargs["mode"] = str(rng.choice(["buckling", "cayley"]))
+                othermode = True
+                ctx.count("sparse_cases_with_buckling_or_cayley_mode")
+            state = {"inst": _build(pym, 1 if B is None else 2, kwargs, srt), "sort": srt, "kwargs": kwargs, "othermode": othermode}
         if not _shift_admissible(lam, sig):
             ctx.count("steps_skipped_shift_too_close_to_an_eigenvalue")
             continue
@@ -464,7 +481,13 @@ def _run_syn(case, ctx, pym):
         if not sa_sb:
             sa_sb["a"], sa_sb["b"] = 10.0 ** rng.uniform(-3, 3), 10.0 ** rng.uniform(-2, 2)
         n = case["n"] if step != 1 else case["n2"]
-        return ref.sparse_problem(rng, case["cls"], n, case["B"], case["fmt"], sa_sb["a"], sa_sb["b"])
+        p = ref.sparse_problem(rng, case["cls"], n, case["B"], case["fmt"], sa_sb["a"], sa_sb["b"])
+        if case.get("pd"):
+            # positive definite A (a stiffness matrix): shifted by a multiple of the identity, pattern and symmetry kept
+            Ad = p["A"].toarray()
+            w = np.linalg.eigvalsh((Ad + Ad.T) / 2)
+            p["A"] = (p["A"] + sps.identity(n, format="csr") * float(max(0.0, -w[0]) + 0.1 * (w[-1] - w[0] + 1e-300))).asformat(case["fmt"])
+        return p
 
     obs, sig = _run_sparse(case, ctx, pym, make, "syn")
     n = case["n"]
